@@ -61,8 +61,14 @@ def main() -> None:
     trees = json.load(open(trees_path))
     obs = []
     for t in trees:
-        sd = scratch / "snippets"
-        complaints = materialise(sd, t["entries"])
+        root = t.get("root", "plain")
+        base = scratch / "roots"
+        shutil.rmtree(base, ignore_errors=True)
+        (base / "sub").mkdir(parents=True)
+        real = {"plain": base / "sn", "hidden_ancestor": base / ".cache" / "sn", "hidden_self": base / ".sn", "dotdot": base / "sn"}[root]
+        complaints = materialise(real, t["entries"])
+        # the path as it is handed to the code under test
+        sd = (base / "sub" / ".." / "sn") if root == "dotdot" else real
         # read_from_directory
         try:
             mapping, errors = si.read_from_directory(snippets_dir=sd)
@@ -81,8 +87,8 @@ def main() -> None:
             mn = {"outcome": "returned", "rc": int(rc), "stderr": core.cps(err.getvalue()[:3000]), "exc": ""}
         except Exception as ex:  # observation
             mn = {"outcome": "exception", "rc": -1, "stderr": core.cps(err.getvalue()[:3000]), "exc": "%s: %s" % (type(ex).__name__, " ".join(str(ex).split())[:200])}
-        obs.append({"entries": t["entries"], "rd": rd, "main": mn, "selfcheck": complaints})
-    shutil.rmtree(scratch / "snippets", ignore_errors=True)
+        obs.append({"entries": t["entries"], "root": root, "rd": rd, "main": mn, "selfcheck": complaints})
+    shutil.rmtree(scratch / "roots", ignore_errors=True)
     json.dump(obs, open(out_path, "w"))
 
 
